@@ -123,10 +123,25 @@ class _MemReader:
         self._i += 1
         return line
 
-    def read(self):
+    def read(self, size=-1):
         rest = "".join(self._lines[self._i:])
-        self._i = len(self._lines)
-        return rest
+        if size is None or size < 0:
+            self._i = len(self._lines)
+            return rest
+        # partial reads (e.g. sniffing the first characters): re-split what is left after the consumed prefix
+        out, left = rest[:size], rest[size:]
+        self._lines = self._lines[: self._i] + left.splitlines(keepends=True)
+        return out
+
+    def seek(self, pos, whence=0):
+        if pos != 0 or whence != 0:
+            raise OSError("in-memory text file: only seek(0) is supported")
+        self._lines = fs()[self.name].splitlines(keepends=True)
+        self._i = 0
+        return 0
+
+    def tell(self):
+        return sum(len(x) for x in self._lines[: self._i])
 
     def readline(self):
         try:
